@@ -5677,6 +5677,8 @@ def merge_parts(parts, reassign="voice"):
             Tempo,
         )
 
+    # the largest new voice number given out so far (auto mode)
+    last_new_voice = 0
     for p_ind, p in enumerate(parts):
         if reassign == "auto":
             # find how many staves this part has
@@ -5696,13 +5698,16 @@ def merge_parts(parts, reassign="voice"):
             )
             # find how many voices this part has
             n_voices = len(unique_voices[p_ind])
-            # build a mapping between the old and new voices
+            # build a mapping between the old and new voices: four voices per
+            # previous staff, or more if the previous parts needed more
+            n_previous_voices = max(n_previous_staves * 4, last_new_voice)
             voice_mapping = dict(
                 zip(
                     unique_voices[p_ind],
-                    n_previous_staves * 4 + np.arange(1, n_voices + 1),
+                    n_previous_voices + np.arange(1, n_voices + 1),
                 )
             )
+            last_new_voice = n_previous_voices + n_voices
         for e in p.iter_all():
             # full copy the first part and partially copy the others
             # we don't copy elements like duplicate barlines, clefs or
